@@ -11,22 +11,28 @@ Variable D : N -> N -> Prop.
 
 Definition res_covers (res : list opres) (pk : N) (o : obj) (rev : N) : Prop :=
   exists r, In r res /\ o_pk (r_obj r) = pk /\ (r_rev r = rev \/ (o_kind o = Pending /\ r_id r = o_sid o)).
-Definition res_covers_rev (res : list opres) (pk rev : N) : Prop :=
-  exists r, In r res /\ o_pk (r_obj r) = pk /\ r_rev r = rev.
+(* a RETRY result (rev <> origRev) for the key awaits its status commit *)
+Definition res_retry (res : list opres) (pk : N) : Prop :=
+  exists r, In r res /\ o_pk (r_obj r) = pk /\ r_rev r <> r_orig r.
 Definition item_covers (q : retries) (pk : N) (del : bool) (rev : N) : Prop :=
   exists it, find_item pk (q_items q) = Some it /\ ri_del it = del /\ ri_rev it = rev /\ ri_inq it = true.
+(* an update retry is queued for the key (its rev is the revision of an Error write, never its origRev) *)
+Definition item_upd (q : retries) (pk : N) : Prop :=
+  exists it, find_item pk (q_items q) = Some it /\ ri_del it = false /\ ri_inq it = true /\ ri_rev it <> ri_orig it.
 
 (* key pk is not forgotten in state (table t, change cursor c, pending results res, retry queue q):
    - live and Pending/Refreshing: ahead of the cursor, or an operation result for exactly this version
      (same revision, or same pending id) awaits its status commit;
-   - live and Error: a retry item for exactly this revision is queued, or a result for it awaits commit;
+   - live and Error: an update retry is queued for the key, or a retry result awaits commit — whatever
+     the object's revision: since fix 8844901 a retry result is applied to an object that still carries
+     the Error status even if a foreign status-only write changed its revision;
    - deleted: ahead of the cursor, or a delete retry for this deletion is queued, or it was Delete()d. *)
 Definition covered (t : table) (c : N) (res : list opres) (q : retries) (pk : N) : Prop :=
   match slot_of t pk with
   | Some (Live o rev) =>
     match o_kind o with
     | Pending | Refreshing => c < rev \/ res_covers res pk o rev
-    | Error => item_covers q pk false rev \/ res_covers_rev res pk rev
+    | Error => item_upd q pk \/ res_retry res pk
     | Done => True
     end
   | Some (Dead o rev) => c < rev \/ item_covers q pk true rev \/ D pk rev
@@ -38,15 +44,21 @@ Lemma item_covers_add_other : forall q o rev orig del now pk d rv, pk <> o_pk o 
 Proof.
   intros q o rev orig del now pk d rv Hn [it [A B]]. exists it. rewrite add_other by exact Hn. split; assumption.
 Qed.
+Lemma item_upd_add_other : forall q o rev orig del now pk, pk <> o_pk o ->
+  item_upd q pk -> item_upd (r_add q o rev orig del now) pk.
+Proof.
+  intros q o rev orig del now pk Hn [it [A B]]. exists it. rewrite add_other by exact Hn. split; assumption.
+Qed.
 
 Lemma commit_one_covers : forall c now t q r rest t1 q1, keyed t ->
   ~ In (o_pk (r_obj r)) (map (fun r => o_pk (r_obj r)) rest) ->
+  r_orig r <= t_rev t ->
   (forall pk, covered t c (r :: rest) q pk) ->
-  commit_one true now (t, q) r = (t1, q1) ->
+  commit_one true true now (t, q) r = (t1, q1) ->
   forall pk, covered t1 c rest q1 pk.
 Proof.
-  intros c now t q r rest t1 q1 Hk Hnin Hcov H pk.
-  destruct (commit_one_spec _ _ _ _ _ _ _ Hk H) as [Ho [Hc Hq]].
+  intros c now t q r rest t1 q1 Hk Hnin Hpast Hcov H pk.
+  destruct (commit_one_spec _ _ _ _ _ _ _ _ Hk H) as [Ho [Hc Hq]].
   assert (NotRest : forall r', In r' rest -> o_pk (r_obj r') = o_pk (r_obj r) -> False).
   { intros r' Hin Heq. apply Hnin. rewrite <- Heq. apply (in_map (fun r => o_pk (r_obj r))). exact Hin. }
   specialize (Hcov pk). unfold covered in *.
@@ -55,14 +67,20 @@ Proof.
     rewrite (Ho pk E).
     assert (IC : forall d rv, item_covers q pk d rv -> item_covers q1 pk d rv).
     { intros d rv Hi. rewrite Hq. destruct (negb (r_ok r) && wrote t t1); [apply item_covers_add_other; assumption|exact Hi]. }
+    assert (IU : item_upd q pk -> item_upd q1 pk).
+    { intros Hi. rewrite Hq. destruct (negb (r_ok r) && wrote t t1); [apply item_upd_add_other; assumption|exact Hi]. }
     destruct (slot_of t pk) as [[o rev|o rev]|]; [|destruct Hcov as [A|[A|A]]; [left; exact A|right; left; apply IC; exact A|right; right; exact A]|exact I].
     destruct (o_kind o).
     - destruct Hcov as [A|[r' [[A1|A1] [A2 A3]]]]; [left; exact A|subst r'; congruence|right; exists r'; repeat split; assumption].
     - destruct Hcov as [A|[r' [[A1|A1] [A2 A3]]]]; [left; exact A|subst r'; congruence|right; exists r'; repeat split; assumption].
     - exact I.
-    - destruct Hcov as [A|[r' [[A1|A1] [A2 A3]]]]; [left; apply IC; exact A|subst r'; congruence|right; exists r'; repeat split; assumption]. }
+    - destruct Hcov as [A|[r' [[A1|A1] [A2 A3]]]]; [left; apply IU; exact A|subst r'; congruence|right; exists r'; repeat split; assumption]. }
   subst pk.
-  destruct Hc as [[A [B C]]|[[cur [A [B C]]]|[cur [rv0 [A [A2 [A3 [A4 [B C]]]]]]]]].
+  assert (Queued : r_ok r = false -> t_rev t1 = t_rev t + 1 -> item_upd q1 (o_pk (r_obj r))).
+  { intros Eok C. rewrite Hq, Eok. cbn [negb andb]. unfold wrote. rewrite C, N.eqb_refl.
+    destruct (add_item_spec q (r_obj r) (t_rev t + 1) (r_orig r) false now) as [it [I1 [_ [I3 [I4 [I5 [I6 _]]]]]]].
+    exists it. repeat split; try assumption. rewrite I3, I4. lia. }
+  destruct Hc as [[A [B C]]|[[cur [A [B C]]]|[cur [rv0 [A [A2 [A3 [B C]]]]]]]].
   - (* nothing written: the queue is unchanged and this result did not cover the current object *)
     assert (Hq1 : q1 = q).
     { rewrite Hq. unfold wrote. rewrite B. replace (t_rev t =? t_rev t + 1) with false by (symmetry; apply N.eqb_neq; lia).
@@ -71,43 +89,44 @@ Proof.
     destruct (slot_of t (o_pk (r_obj r))) as [[o rev|o rev]|] eqn:Es; [|exact Hcov|exact I].
     assert (Hl : t_live t (o_pk (r_obj r)) = Some (o, rev)) by (apply t_live_slot; exact Es).
     destruct (C o rev Hl) as [C1 C2].
+    assert (NF : ~ ((o_kind o = Pending /\ o_sid o = r_id r) \/ (true = true /\ o_kind o = Error /\ r_rev r <> r_orig r))).
+    { intro X. apply fallback_ok_spec in X. congruence. }
     destruct (o_kind o) eqn:Eo.
     + destruct Hcov as [X|[r' [[X1|X1] [X2 X3]]]]; [left; exact X| |exfalso; eapply NotRest; eassumption].
-      subst r'. exfalso. destruct X3 as [X3|[_ X3]]; [congruence|]. apply C2. split; [reflexivity|congruence].
+      subst r'. exfalso. destruct X3 as [X3|[_ X3]]; [congruence|]. apply NF. left. split; [reflexivity|congruence].
     + destruct Hcov as [X|[r' [[X1|X1] [X2 X3]]]]; [left; exact X| |exfalso; eapply NotRest; eassumption].
       subst r'. exfalso. destruct X3 as [X3|[X3 _]]; congruence.
     + exact I.
-    + destruct Hcov as [X|[r' [[X1|X1] [X2 X3]]]]; [left; exact X|subst r'; congruence|exfalso; eapply NotRest; eassumption].
+    + destruct Hcov as [X|[r' [[X1|X1] [X2 X3]]]]; [left; exact X| |exfalso; eapply NotRest; eassumption].
+      subst r'. exfalso. apply NF. right. repeat split; assumption.
   - (* written by CompareAndSwap *)
     rewrite B. cbn [with_status o_kind].
-    destruct (r_ok r) eqn:Eok; [exact I|].
-    left. rewrite Hq. cbn [negb andb]. unfold wrote. rewrite C, N.eqb_refl.
-    destruct (add_item_spec q (r_obj r) (t_rev t + 1) (r_orig r) false now) as [it [I1 [_ [I3 [_ [I5 [I6 _]]]]]]].
-    exists it. repeat split; assumption.
-  - (* written through the pending-id fallback *)
+    destruct (r_ok r) eqn:Eok; [exact I|]. left. apply Queued; [reflexivity|exact C].
+  - (* written through the fallback (same pending id, or retry over our Error status) *)
     rewrite B. cbn [with_status o_kind].
-    destruct (r_ok r) eqn:Eok; [exact I|].
-    left. rewrite Hq. cbn [negb andb]. unfold wrote. rewrite C, N.eqb_refl.
-    destruct (add_item_spec q (r_obj r) (t_rev t + 1) (r_orig r) false now) as [it [I1 [_ [I3 [_ [I5 [I6 _]]]]]]].
-    exists it. repeat split; assumption.
+    destruct (r_ok r) eqn:Eok; [exact I|]. left. apply Queued; [reflexivity|exact C].
 Qed.
 
 Theorem commit_status_covers : forall c now res t q t' q',
   keyed t -> uniq q -> NoDup (map (fun r => o_pk (r_obj r)) res) ->
+  (forall r, In r res -> r_orig r <= t_rev t) ->
   (forall pk, covered t c res q pk) -> commit_status now t q res = (t', q') ->
   forall pk, covered t' c [] q' pk.
 Proof.
   intros c now res. unfold commit_status, commit_status_gen.
-  induction res as [|r rest IH]; intros t q t' q' Hk Hu Hnd Hcov H.
+  induction res as [|r rest IH]; intros t q t' q' Hk Hu Hnd Hpast Hcov H.
   - cbn in H. injection H as H1 H2. subst. exact Hcov.
-  - cbn [fold_left] in H. destruct (commit_one true now (t, q) r) as [t1 q1] eqn:E1.
+  - cbn [fold_left] in H. destruct (commit_one true true now (t, q) r) as [t1 q1] eqn:E1.
     cbn [map] in Hnd. inversion Hnd as [|x xs Hx Hr]; subst.
+    destruct (commit_one_spec _ _ _ _ _ _ _ _ Hk E1) as [_ [Hc Hq]].
+    assert (Hmono : t_rev t <= t_rev t1).
+    { destruct Hc as [[_ [B _]]|[[cur [_ [_ C]]]|[cur [rv0 [_ [_ [_ [_ C]]]]]]]]; lia. }
     apply (IH t1 q1 t' q').
     + eapply commit_one_keyed; eassumption.
-    + destruct (commit_one_spec _ _ _ _ _ _ _ Hk E1) as [_ [_ Hq]]. rewrite Hq.
-      destruct (negb (r_ok r) && wrote t t1); [apply uniq_add|]; exact Hu.
+    + rewrite Hq. destruct (negb (r_ok r) && wrote t t1); [apply uniq_add|]; exact Hu.
     + exact Hr.
-    + eapply commit_one_covers; eassumption.
+    + intros r2 Hin. specialize (Hpast r2 (or_intror Hin)). lia.
+    + eapply commit_one_covers; try eassumption. apply Hpast. left. reflexivity.
     + exact H.
 Qed.
 End Cover.
